@@ -8,7 +8,7 @@
 import struct
 import functools
 
-from amaranth                                import Cat, DomainRenamer, Elaboratable, Module, Signal
+from amaranth                                import Cat, Const, DomainRenamer, Elaboratable, Module, Signal
 from amaranth.lib.memory                     import Memory
 from usb_protocol.emitters.descriptors       import DeviceDescriptorCollection
 from usb_protocol.types.descriptors.standard import StandardDescriptorNumbers
@@ -77,8 +77,10 @@ class GetDescriptorHandlerDistributed(Elaboratable):
     def elaborate(self, platform):
         m = Module()
 
-        # Collection that will store each of our descriptor-generation submodules.
+        # Collection that will store each of our descriptor-generation submodules,
+        # along with the length of the descriptor each one produces (if known).
         descriptor_generators = {}
+        descriptor_lengths    = {}
 
         #
         # Figure out the maximum length we're willing to send.
@@ -104,8 +106,10 @@ class GetDescriptorHandlerDistributed(Elaboratable):
             # Create the generator...
             if isinstance(raw_descriptor, bytes):
                 generator = USBDescriptorStreamGenerator(raw_descriptor)
+                descriptor_lengths[(type_number, index)] = len(raw_descriptor)
             else:
                 generator = raw_descriptor()
+                descriptor_lengths[(type_number, index)] = getattr(generator, 'data_length', None)
             descriptor_generators[(type_number, index)] = generator
 
             m.d.comb += [
@@ -130,9 +134,26 @@ class GetDescriptorHandlerDistributed(Elaboratable):
                 # If the value matches the given type number...
                 with m.Case(type_number << 8 | index):
 
+                    # Our start position may point to (or past) the end of the descriptor in case its
+                    # length is a multiple of the maximum packet size and the host keeps reading. The
+                    # generator cannot represent that position; we must send a ZLP instead, so the host
+                    # knows the previous packet was the end of the descriptor.
+                    descriptor_length = descriptor_lengths[(type_number, index)]
+                    if descriptor_length is None:
+                        past_end = Const(0)
+                    else:
+                        past_end = (self.start_position >= descriptor_length)
+
                     # ... connect the relevant generator to our output.
                     m.d.comb += generator.stream  .attach(self.tx)
-                    m.d.usb += generator.start    .eq(self.start),
+                    m.d.usb += generator.start    .eq(self.start & ~past_end),
+
+                    # Pulse `last` without `first` to indicate a ZLP.
+                    with m.If(self.start & past_end):
+                        m.d.comb += [
+                            self.tx.valid  .eq(1),
+                            self.tx.last   .eq(1),
+                        ]
 
             # If none of our descriptors match, stall any request that comes in.
             with m.Default():
